@@ -72,7 +72,13 @@ func c04Gen(rng *mrand.Rand) c04Case {
 	}
 	exp := c04Exp(c.na)
 	// ARI state
-	switch rng.Intn(8) {
+	switch rng.Intn(9) {
+	case 8: // a selected time that is NOT inside the window (the CA has moved the window since the
+		// time was selected, or an administrator scheduled the renewal): the selected time counts
+		s := c.nb + rng.Int63n(L+1)
+		w := (2 + rng.Int63n(3*86400)) * 1e9
+		c.hasWs, c.hasWe, c.ws, c.we = true, true, s, s+w
+		c.hasSel, c.sel = true, c.nb+rng.Int63n(L+1)
 	case 0:
 		c.disable = true
 		// (ARI disabled: whatever renewal information the certificate still carries — a window, a
